@@ -343,7 +343,19 @@ func (c *gwCfg) gateway() *protocol.Gateway {
 		return false, fmt.Errorf("refused %q", s)
 	}
 	if c.ccheck {
-		g.CheckPAACookie = func(_ context.Context, s string) (bool, error) { return verdict(contains(c.cookies, s), s) }
+		g.CheckPAACookie = func(ctx context.Context, s string) (bool, error) {
+			ok := contains(c.cookies, s)
+			if ok {
+				// as security.CheckPAACookie does on acceptance: the token's host and address go into the tunnel
+				// record (here: a host that accepts connections, so that a connection made on the strength of
+				// the record alone would be seen)
+				if t, _ := ctx.Value(protocol.CtxTunnel).(*protocol.Tunnel); t != nil && len(c.dial) > 0 {
+					t.TargetServer = c.dial[0]
+					t.RemoteAddr = "192.0.2.1"
+				}
+			}
+			return verdict(ok, s)
+		}
 	}
 	if c.ncheck {
 		g.CheckClientName = func(_ context.Context, s string) (bool, error) { return verdict(contains(c.clients, s), s) }
